@@ -33,7 +33,7 @@ type runner struct {
 }
 
 var runners = map[string]runner{
-	"C01": {"model_checking", ribhist.RunC01},
+	"C01": {"model_checking", func(rep *report.Report, tier string) { sesshist.RunC01Server(rep, tier); ribhist.RunC01(rep, tier) }},
 	"C02": {"model_checking", ribhist.RunC02},
 	"C03": {"model_checking", ribhist.RunC03},
 	"C16": {"model_checking", ribhist.RunC16},
